@@ -1322,7 +1322,8 @@ SRef Interpret::sortFromASTNode(ASTNode const & node) const {
         SortSymbol symbol(node.getValue(), 0);
         SSymRef symRef;
         bool known = logic->peekSortSymbol(symbol, symRef);
-        if (not known) { return SRef_Undef; }
+        // sort symbols are looked up by name: the number of arguments has to be compared separately
+        if (not known or logic->getSortSymbol(symRef).arity != symbol.arity) { return SRef_Undef; }
         return logic->getSort(symRef, {});
     } else {
         assert(type == LID_T and node.children and not node.children->empty());
@@ -1330,7 +1331,7 @@ SRef Interpret::sortFromASTNode(ASTNode const & node) const {
         SortSymbol symbol(name.getValue(), node.children->size() - 1);
         SSymRef symRef;
         bool known = logic->peekSortSymbol(symbol, symRef);
-        if (not known) { return SRef_Undef; }
+        if (not known or logic->getSortSymbol(symRef).arity != symbol.arity) { return SRef_Undef; }
         vec<SRef> args;
         for (auto it = node.children->begin() + 1; it != node.children->end(); ++it) {
             SRef argSortRef = sortFromASTNode(**it);
